@@ -881,7 +881,8 @@ PTRef ArithLogic::mkConst(SRef s, char const * name) {
             stringToRational(rat, name);
         else {
             if (not isIntString(name)) throw ApiException("Not parseable as an integer");
-            rat = strdup(name);
+            // Canonical spelling, so that one value is one constant term ("007" and "7", "-0" and "0")
+            rat = strdup(Number(name).get_str().c_str());
         }
         ptr = mkVar(s, rat, true);
         // Store the value of the number as a real
